@@ -180,8 +180,16 @@ def check_sup_and_wiring(project: Project, rep):
                           ("numpy.abs", "builtins.abs", "numpy.absolute", "numpy.fabs") for x in ast.walk(m))
             mins = any(isinstance(x, ast.Call) and project.resolve(sup.module, x.func, locs) in ("numpy.min", "builtins.min")
                        for x in ast.walk(f))
-            if has_abs:
-                rep.discharged("NM-SUP", sup, m, f"{kind}: |·| is applied to the values before the maximum")
+            partial = [x for x in ast.walk(f) if isinstance(x, ast.Subscript) and isinstance(x.value, ast.Attribute)
+                       and x.value.attr in ("values", "critical_pairs") and isinstance(x.value.value, ast.Name)
+                       and x.value.value.id == "self"]
+            if partial:
+                rep.refuted("NM-SUP", sup, partial[0],
+                            f"{kind}: the supremum is taken over `{ast.unparse(partial[0])}` only, not over every depth: for a "
+                            f"difference or linear combination a deeper function can carry the largest absolute value (P − Q "
+                            f"with a shared most-persistent bar gives 0)")
+            elif has_abs:
+                rep.discharged("NM-SUP", sup, m, f"{kind}: |·| is applied to the values of every depth before the maximum")
             elif mins:
                 rep.discharged("NM-SUP", sup, m, f"{kind}: max(max, −min) form", nontrivial=False)
             else:
